@@ -1165,4 +1165,38 @@ impl VersionSet {
         });
         (level, score >= 1., picked)
     }
+
+    /// Run `VersionSet::compact_range` on a synthetic version. Returns the numbers of the selected
+    /// level and parent files and the largest key of the last level file, or `None` when nothing
+    /// overlaps the range.
+    #[allow(clippy::type_complexity)]
+    pub(crate) fn verif_manual_probe(
+        options: &DbOptions,
+        table_cache: &Arc<TableCache>,
+        files: Vec<Vec<Arc<FileMetadata>>>,
+        level: usize,
+        key_range: std::ops::Range<Option<InternalKey>>,
+    ) -> Option<(Vec<u64>, Vec<u64>, InternalKey)> {
+        let mut version_set = VersionSet::new(options.clone(), Arc::clone(table_cache));
+        let mut version = Version::new(options.clone(), table_cache, 0, 0);
+        for (level, level_files) in files.into_iter().enumerate().take(MAX_NUM_LEVELS) {
+            version.files[level] = level_files;
+        }
+        version.finalize();
+        version_set.append_new_version(version);
+        let numbers =
+            |files: &[Arc<FileMetadata>]| files.iter().map(|file| file.file_number()).collect();
+        version_set.compact_range(level, key_range).map(|manifest| {
+            (
+                numbers(manifest.get_compaction_level_files()),
+                numbers(manifest.get_parent_level_files()),
+                manifest
+                    .get_compaction_level_files()
+                    .last()
+                    .unwrap()
+                    .largest_key()
+                    .clone(),
+            )
+        })
+    }
 }
